@@ -89,7 +89,7 @@ Lemma acc_flush : forall o st, acc (flush_line o st) = acc st /\ j_line (flush_l
 Proof.
   intros o st. unfold flush_line, acc.
   destruct (all_ws (j_line st)) eqn:Ews.
-  - destruct (negb (j_had st) && (j_prev st =? 0)); cbn [j_out j_line]; split; auto.
+  - destruct (negb (j_had st) && negb (j_had_label st) && (j_prev st =? 0)); cbn [j_out j_line]; split; auto.
     + rewrite nows_push_line. cbn [nows filter]. rewrite app_nil_r; reflexivity.
     + rewrite (all_ws_nows _ Ews); reflexivity.
   - destruct (o_label_margin o + o_code_margin o <? byte_len (j_line st)).
@@ -110,32 +110,35 @@ Proof.
   - rewrite andb_false_r in H; discriminate.
 Qed.
 
+Lemma acc_with_line : forall st l a b, acc (with_line st l a b) = nows (concat (rev (j_out st))) ++ nows l.
+Proof. reflexivity. Qed.
+
 Lemma acc_join_piece : forall o ty e last st s,
   acc (join_piece o ty e last st s) = acc st ++ nows s.
 Proof.
   intros o ty e last st s. unfold join_piece.
   set (lm := o_label_margin o).
-  assert (Hacc : forall line' st0, st0 = mkJ line' (j_indent st) (j_had st) (j_prev st) (j_out st) ->
-                 nows line' = nows (j_line st) ++ nows s ->
-                 forall b : bool, acc (if b then flush_line o st0 else st0) = acc st ++ nows s).
-  { intros line' st0 -> Hl b. destruct b.
-    - rewrite (proj1 (acc_flush o _)). unfold acc; simpl. rewrite Hl, app_assoc; reflexivity.
-    - unfold acc; simpl. rewrite Hl, app_assoc; reflexivity. }
+  assert (Hacc : forall line' a b, nows line' = nows (j_line st) ++ nows s ->
+                 forall c : bool, acc (if c then flush_line o (with_line st line' a b) else with_line st line' a b) = acc st ++ nows s).
+  { intros line' a b Hl c. destruct c.
+    - rewrite (proj1 (acc_flush o _)), acc_with_line. unfold acc. rewrite Hl, app_assoc; reflexivity.
+    - rewrite acc_with_line. unfold acc. rewrite Hl, app_assoc; reflexivity. }
   destruct ty as [[|]|].
   - (* Label *)
     destruct (lm <? byte_len (j_line st)).
-    + eapply Hacc; [reflexivity|]. rewrite !nows_app; simpl; rewrite app_nil_r; reflexivity.
-    + destruct (o_label_alignment o); (eapply Hacc; [reflexivity|]);
+    + apply Hacc. rewrite !nows_app; simpl; rewrite app_nil_r; reflexivity.
+    + destruct (o_label_alignment o); apply Hacc;
         rewrite nows_app, ?nows_pad_right, ?nows_pad_left, nows_app; simpl; rewrite app_nil_r; reflexivity.
   - (* Comment *)
-    destruct e; (eapply Hacc; [reflexivity|]).
+    destruct e; apply Hacc.
     + rewrite nows_app, nows_pad_right; reflexivity.
     + rewrite !nows_app, nows_pad_right; simpl; rewrite app_nil_r; reflexivity.
   - (* plain *)
     destruct (text_eqb s [NL] && negb match j_line st with [] => true | _ :: _ => false end && (byte_len (j_line st) <=? lm)) eqn:Eig.
     + apply andb_prop in Eig as [Eig _]; apply andb_prop in Eig as [Eig _].
-      eapply Hacc; [reflexivity|]. rewrite (nows_single_nl _ Eig), app_nil_r; reflexivity.
-    + eapply Hacc; [reflexivity|]. rewrite nows_app, nows_pad_right; reflexivity.
+      rewrite (nows_single_nl _ Eig), app_nil_r.
+      destruct (negb true && contains_nl s || last); [apply acc_flush | reflexivity].
+    + apply Hacc. rewrite nows_app, nows_pad_right; reflexivity.
 Qed.
 
 Lemma line_join_piece_last : forall o ty e st s, j_line (join_piece o ty e true st s) = [].
